@@ -1655,9 +1655,9 @@ def my_GetVolumeInformation(jitter, funcname, get_str, set_str):
     if args.lpfilesystemflags:
         jitter.vm.set_u32(args.lpfilesystemflags, 22222222)
 
-    if args.lpfilesystemnamebuffer:
+    if args.lpfilesystemnamebuffer and args.nfilesystemnamesize > 0:
         s = "filesystemname"
-        s = s[:args.nfilesystemnamesize]
+        s = s[:args.nfilesystemnamesize - 1]
         set_str(args.lpfilesystemnamebuffer, s)
 
     jitter.func_ret_stdcall(ret_ad, 1)
